@@ -350,6 +350,52 @@ def stop_vs_loss(decisions, nconns=3, loser=1):
         w.close()
 
 
+def stop_vs_garbage(decisions):
+    """stop() is called in the instant in which a ready connection receives a header that cannot be a Diameter
+    message (length field 5): the read thread closes the connection while stop() sends it a DPR.  One schedule: the
+    connection is closed and stop() returns well before its wait timeout (nobody is left to answer the DPR)."""
+    from dv import sched, refcodec as R_
+    w = W.NodeWorld({"peers": [{"name": "peer1.example", "ip": ["10.1.1.1"]}],
+                     "apps": [{"app_id": 4, "auth": True, "peers": [0], "handler": "answer"}],
+                     "node_timers": {"idle": 5000, "dwa": 5000, "cer": 50, "cea": 50, "wakeup": 1}})
+    try:
+        w.start()
+        c = w.handshake_in("peer1.example", auth=[4], ip="10.1.1.1", hbh=0x100)
+        ex = sched.Explorer(decisions)
+        sched.attach(w.k, ex)
+        garbage = bytes([1, 0, 0, 5]) + bytes(16)
+        t0 = w.k.now
+
+        def garbage_and_stop():
+            c.remote.send(garbage)
+            w.node.stop(wait_timeout=8, force=False)
+        ex.armed = True
+        box = w.k.spawn(garbage_and_stop, name="stopper")
+        w.k.run()
+        ex.armed = False
+        for sec in range(12):
+            if box["done"]:
+                break
+            w.advance(1)
+        problems = []
+        if box["exc"] is not None:
+            problems.append((f"stop-raised/{type(box['exc']).__name__}", repr(box["exc"])))
+        elif not box["done"]:
+            problems.append(("stop-did-not-return", "stop() still running 12 s after the call (wait timeout 8 s)"))
+        elif w.k.now - t0 >= 8:
+            problems.append(("stop-waited-for-a-closed-connection", f"stop() returned after {w.k.now - t0:g}s: the connection that its read thread had "
+                             f"closed on garbage was held until the wait timeout (8 s)"))
+        w.advance(3)
+        left = [s_ for s_ in w.net.open_sockets()]
+        if left:
+            problems.append(("sockets-open-after-stop", f"{left[:4]}"))
+        for sig, d in W.monitor_threads(w):
+            problems.append((f"thread-died/{sig}", d))
+        return ex.trace, problems
+    finally:
+        w.close()
+
+
 def two_stops(decisions):
     """Two threads call stop() at the same moment (a signal handler and the main program, say).  One schedule:
     exactly one of the calls carries the shutdown out, the other is refused with the documented RuntimeError, and
@@ -474,7 +520,11 @@ def schedule_part(rec, shard, nshards, thorough):
         rec.extra["stop_vs_loss_schedules"] = rec.extra.get("stop_vs_loss_schedules", 0) + n
     from dv import simkernel as sk
     N = sk.load_node()["node"].Node
-    for name, fn, points, bound in (("two-stops", two_stops, {N.stop: None}, 3 if thorough else 2),
+    P = sk.load_node()["peer"].PeerConnection
+    for name, fn, points, bound in (("stop-vs-garbage", stop_vs_garbage,
+                                     {N.stop: r"_stopping|_stop_lock|send_dpr|for conn|PEER_READY_STATES", N.send_dpr: None, P.close: None,
+                                      P.work_read_queue: r"self\.close\(\)|only garbage"}, 3 if thorough else 2),
+                                    ("two-stops", two_stops, {N.stop: None}, 3 if thorough else 2),
                                     ("stop-vs-watchdog", stop_vs_watchdog,
                                      {N.stop: r"_stopping|_stop_lock|send_dpr|for conn", N._check_timers: None, N.send_dwr: None}, 3 if thorough else 2)):
         sched.clear()
@@ -564,7 +614,7 @@ def run(tier, scale=1.0):
     rec = Recorder(PID)
     for d in hyp.pool_run(shard_main, (tier, scale)):
         rec.merge(d)
-    required = {"exploration:two-stops": 1, "exploration:stop-vs-watchdog": 1} | {f"state:{s}": 1 for s in set(STATES)} | {f"reaction:{r}": 1 for r in REACTIONS} | \
+    required = {"exploration:stop-vs-garbage": 1, "exploration:two-stops": 1, "exploration:stop-vs-watchdog": 1} | {f"state:{s}": 1 for s in set(STATES)} | {f"reaction:{r}": 1 for r in REACTIONS} | \
                {"schedule-exploration": 1, "handshake-completes-while-stopping": 1, "listeners:2": 1, "listeners:4": 1, "simultaneous-dpas": 1, "second-connection-of-a-peer": 1, "force:True": 1, "newcomers:2": 1, "nconns:3": 1, "reconnect-inside:True": 1, "app:threading": 1}
     return finish(rec, tier=tier, level="exploration", rule=RULE, assumptions=ASSUME, t0=t0,
                   required_classes=required)
@@ -573,12 +623,16 @@ def run(tier, scale=1.0):
 def replay(doc):
     from dv import sched, simkernel as sk
     case = doc["case"]
-    explorations = {"two-stops": (two_stops, "C18/two-stops/"), "stop-vs-watchdog": (stop_vs_watchdog, "C18/stop-vs-watchdog/")}
+    explorations = {"two-stops": (two_stops, "C18/two-stops/"), "stop-vs-watchdog": (stop_vs_watchdog, "C18/stop-vs-watchdog/"),
+                    "stop-vs-garbage": (stop_vs_garbage, "C18/stop-vs-garbage/")}
     for name, (fn, prefix) in explorations.items():
         if case.get(name):
             N = sk.load_node()["node"].Node
             sched.clear()
+            P = sk.load_node()["peer"].PeerConnection
             sched.install({N.stop: None} if name == "two-stops" else
+                          {N.stop: r"_stopping|_stop_lock|send_dpr|for conn|PEER_READY_STATES", N.send_dpr: None, P.close: None,
+                           P.work_read_queue: r"self\.close\(\)|only garbage"} if name == "stop-vs-garbage" else
                           {N.stop: r"_stopping|_stop_lock|send_dpr|for conn", N._check_timers: None, N.send_dwr: None})
             _, problems = fn({int(i): c for i, c in case["schedule"].items()})
             sigs = [prefix + k for k, _ in problems]
